@@ -2,7 +2,9 @@
 LEVELS = {
     'C01': 'other',
     'C03': 'other',
+    'C07': 'other',
     'C12': 'other',
+    'C24': 'other',
     'C22': 'other',
     'C25': 'proof',
     'C26': 'proof',
@@ -10,6 +12,8 @@ LEVELS = {
     'C28': 'proof',
 }
 EXPLAIN = {
+    'C07': 'BOUNDED stand-in, per-call obligations under interference (not a linearizability proof): enqueue_with / dequeue_with / front / empty of the real Vyukov queue run against a state that contains in-flight enqueues and dequeues of other threads in every cell, with positions fully symbolic; the calling thread must claim only free (resp. published) cells, publish/release exactly the cell it claimed, and report full/empty only if the queue was full/empty at an instant during the call; the representation invariant is preserved.',
+    'C24': 'Modular check over the queue CONTRACT (C07 assumed): allocate/deallocate/preallocate of the three real pool classes and pool_allocator run against a ghost free list and ghost heap with other holders interleaving; every object is always in exactly one place (free list, heap, caller, other holder), allocate hands out an object nobody else holds, deallocate makes it available again exactly once. Push-retry loops bounded.',
     'C12': 'BOUNDED stand-in with fully symbolic counters: each producer/consumer function of the real WeakRingBuffer (typed and <void>) is checked as one side of the SPSC pair while the environment lets the other side progress before every atomic access: success exactly when space/elements suffice (against a counter value read during the call), elements stored/returned in order at the right positions, no unread cell or byte ever overwritten, records contiguous with exact size headers, tail markers skipped exactly once.',
     'C01': 'BOUNDED stand-in (not a proof): ghost-state obligations on the real scan code (both strategies, the odd-address fallback, retire, detach) over harness-built worlds of a few thread records, hazard slots and retired pointers, exhaustive inside the bound; a witness hazard slot holds the protected pointer for the whole pass while every other slot returns arbitrary values (all interleavings of other threads with the pass). The disposer stub asserts it is never called on the protected pointer.',
     'C03': 'BOUNDED stand-in (not a proof): a tracked retired object is followed through scan, retire, help_scan, detach and the destructor of the real code: disposed at most once, exactly once when unprotected / at destruction, never invented, conserved by adoption of abandoned records. HP only; DHP is covered by unit dhp_scan when present.',
